@@ -35,7 +35,10 @@ def opOf (j : Json) : Op :=
   | "startWatches" => .startWatches n ((arr j "ws").map widOf)
   | "stopWatches" => .stopWatches n ((arr j "ws").map widOf)
   | "getWatches" => .getWatches n
-  | "gc" => .gc n (nats j "refs")
+  | "gc" => .gc n ((arr j "xrs").map fun x =>
+      { deleting := bool x "del", paused := bool x "paused", hasCompositionRef := !(bool x "nocomp"),
+        ready := !(bool x "notready"), synced := !(bool x "unsynced"),
+        refs := (arr x "refs").map fun r => if str r "bad" == "" then some (nat r "g") else none })
   | _ => .removeInformer (nat j "g")
 
 /-- the external call a thread is parked at, in the harness' notation -/
